@@ -76,7 +76,7 @@ def base_case(draw, tier, data_kind=None, depths=vs.DEPTHS_STREAM, min_chans=1, 
         start, nsamps = 0, None
     eff = n - start if nsamps is None else nsamps
     gulp = draw(st.one_of(st.integers(1, eff + 3), st.integers(1, max(1, eff // 2))))
-    return {"layout": lay, "start": start, "nsamps": nsamps, "gulp": gulp,
+    return {"layout": lay, "start": start, "nsamps": nsamps, "gulp": gulp, "prior": draw(vs.prior_use(n)),
             "fch1": draw(st.sampled_from([1400.0, 800.0, 1500.5])), "foff": -draw(st.sampled_from([1.0, 4.0, 0.5, 10.0]))}
 
 
@@ -93,7 +93,7 @@ class Setup:
         self.eff = self.N - self.start if self.nsamps is None else self.nsamps
         self.X = self.D[self.start : self.start + self.eff]
         self.nbits = self.lay["nbits"]
-        self.reader = lambda: FilReader(self.paths)
+        self.reader = lambda: vs.apply_prior_use(FilReader(self.paths), case.get("prior"))
         self.kw = {"gulp": self.gulp, "start": self.start, "nsamps": self.nsamps, "quiet": True, "description": "v"}
         self.big = dict(self.kw, gulp=self.eff + 7)
         self.ctxt = (f"N={self.N} nchans={self.nchans} nbits={self.nbits} split={self.lay['split']} start={self.start} "
